@@ -584,6 +584,33 @@ func c10Swallow(c *Ctx) {
 		return f == "Timestamper"
 	})
 	c.Check(okName, r, "internal/signinit.Init selects configured authority pool", p.Pos(store.Pos()), "namedTimestamper{name: kconf.Timestamper}", "the installed timestamper ignores the key's configured authority pool")
+	// what is installed is a timestamper, not nil: a value boxed here, or the result of a helper
+	// that cannot answer (nil, nil)
+	nilable := ""
+	switch v := stripConv(store.Val).(type) {
+	case *ssa.MakeInterface:
+	case *ssa.Extract:
+		if call, ok := v.Tuple.(*ssa.Call); ok {
+			if sc := call.Common().StaticCallee(); sc != nil && len(sc.Blocks) > 0 {
+				ei := errResultIndex(sc.Signature)
+				for _, ret := range returnsOf(sc) {
+					if v.Index >= len(ret.Results) || ei < 0 || ei >= len(ret.Results) {
+						continue
+					}
+					if p.mayBeNil(ret.Results[v.Index], map[ssa.Value]bool{}) && p.mayBeNil(ret.Results[ei], map[ssa.Value]bool{}) && !p.knownNonNilAt(sc, ret.Results[ei], ret.Block()) {
+						nilable = p.FName(sc) + " can return no timestamper together with a nil error (return at " + p.Pos(ret.Pos()) + ")"
+					}
+				}
+			} else {
+				nilable = "the result of a call that cannot be examined"
+			}
+		}
+	default:
+		if p.mayBeNil(store.Val, map[ssa.Value]bool{}) {
+			nilable = "a value that may be nil"
+		}
+	}
+	c.Check(nilable == "", r, "internal/signinit.Init installs a timestamper that is not nil", p.Pos(store.Pos()), "", "what Init stores into cert.Timestamper may be nil while Init succeeds ("+nilable+"): every signer treats a nil Timestamper as 'no timestamp wanted', so keys configured with `timestamp: true` are signed without one and nothing reports it")
 }
 
 func c10Failover(c *Ctx) {
